@@ -1,0 +1,67 @@
+//go:build verif
+
+package proto
+
+import (
+	"net"
+
+	"ergo.services/ergo/gen"
+	"ergo.services/ergo/lib"
+)
+
+// Verification exports (build tag "verif"): give the harness access to the
+// frame reader of a link without the decoding workers.
+
+// VerifServe runs the real serve() loop (read() + magic/version checks + queue
+// selection) of the connection on conn, with the decoding workers disabled:
+// the connection is reduced to a single receive queue which is locked up
+// front, so serve() only pushes the frames it has cut. It returns these
+// frames in arrival order and, if serve() panicked, the recovered value
+// (in production serve() runs in a goroutine without recover).
+func VerifServe(gc gen.Connection, conn net.Conn, tail []byte) (frames [][]byte, panicked any) {
+	c := gc.(*connection)
+	q := lib.NewQueueMPSC()
+	q.Lock()
+	c.recvQueues = []lib.QueueMPSC{q}
+	func() {
+		defer func() {
+			panicked = recover()
+		}()
+		c.serve(conn, tail)
+	}()
+	for {
+		v, ok := q.Pop()
+		if ok == false {
+			break
+		}
+		b := v.(*lib.Buffer)
+		f := make([]byte, len(b.B))
+		copy(f, b.B)
+		frames = append(frames, f)
+	}
+	return
+}
+
+// VerifHandleFrame runs the real decoding worker (handleRecvQueue) on one
+// frame, synchronously, and reports a panic that escaped it (none can when
+// lib.Recover() is enabled: the worker recovers and terminates the connection).
+func VerifHandleFrame(gc gen.Connection, frame []byte) (panicked any) {
+	c := gc.(*connection)
+	q := lib.NewQueueMPSC()
+	buf := lib.TakeBuffer()
+	buf.Append(frame)
+	q.Push(buf)
+	q.Lock()
+	func() {
+		defer func() {
+			panicked = recover()
+		}()
+		c.handleRecvQueue(q)
+	}()
+	return
+}
+
+// VerifTerminated tells whether Terminate() was called on the connection.
+func VerifTerminated(gc gen.Connection) bool {
+	return gc.(*connection).terminated
+}
